@@ -15,11 +15,12 @@
 #define MAXLEN  4096
 
 enum { CL_TWO_INPUTS, CL_INTERLEAVED, CL_ADD_BETWEEN, CL_REMOVE_BETWEEN, CL_SWITCH_OUTPUT, CL_BIG, CL_SEG,
-       CL_REFLOW, CL_HOLD, CL_PARENT_FIRST, CL_FOUR_INPUTS, CL_FAULT };
+       CL_REFLOW, CL_HOLD, CL_PARENT_FIRST, CL_FOUR_INPUTS, CL_FAULT, CL_TO_REFUSING, CL_AFTER_REFUSING };
 static const char *const class_names[] = {
     "two_inputs_delivered", "inputs_interleaved", "input_added_between_sections", "input_removed_between_sections",
     "output_changed_between_sections", "section_ge_1024", "segmented_section", "input_flow_def_set_again",
-    "sink_holds_outputs", "join_released_before_inputs", "four_inputs_live", "allocation_refused_inside_set_flow_def", NULL };
+    "sink_holds_outputs", "join_released_before_inputs", "four_inputs_live", "allocation_refused_inside_set_flow_def",
+    "section_while_the_output_refuses_the_flow_def", "section_after_a_refusing_output_was_replaced", NULL };
 
 struct sent { uint8_t *b; int len; };
 struct in {
@@ -34,7 +35,7 @@ struct ctx {
     struct fix_mem fm;
     struct in in[MAXIN]; int nin, nlive;
     struct c16_probe probe;
-    struct c16_sink sink[2]; int cursink;
+    struct c16_sink sink[2]; int cursink; bool rejecting, refused_some, was_refusing;
     struct upipe *join;
     uint32_t classes; uint64_t hash;
     unsigned seq;
@@ -134,7 +135,11 @@ static void send_section(struct ctx *c)
     sec[1] = (uint8_t)((syntax ? 0x80 : 0) | 0x30 | (((len - 3) >> 8) & 0x0f));
     sec[2] = (len - 3) & 0xff;
     for (int i = 3; i < len; i++) sec[i] = i == 3 ? (uint8_t)n->nsent : (uint8_t)(idx * 41 + n->nsent * 7 + i * 3 + (i >> 8));
-    n->sent[n->nsent].b = sec; n->sent[n->nsent].len = len; n->nsent++;
+    /* while the output is a pipe that refuses the flow definition the sections are dropped (and must not reach it); once the
+     * application has replaced it, every section is forwarded again */
+    bool to_refusing = c->rejecting && c->cursink == 1;
+    if (!to_refusing) { n->sent[n->nsent].b = sec; n->sent[n->nsent].len = len; n->nsent++; }
+    else { CLS(CL_TO_REFUSING); c->refused_some = true; }
     if (len >= 1024) CLS(CL_BIG);
     struct ubuf *u;
     size_t cuts[2]; int ncuts = 0;
@@ -151,8 +156,10 @@ static void send_section(struct ctx *c)
     c->last_input = idx;
     int before = c->sink[0].nrec + c->sink[1].nrec;
     upipe_input(n->sub, uref, NULL);
-    R("  section on input %d: #%d, %d octets -> %d block(s) at the sinks\n", idx, n->nsent - 1, len, c->sink[0].nrec + c->sink[1].nrec - before);
+    R("  section on input %d: #%d, %d octets%s -> %d block(s) at the sinks\n", idx, n->nsent - 1, len, to_refusing ? " (the output refuses the flow definition)" : "", c->sink[0].nrec + c->sink[1].nrec - before);
     c->ntotal++;
+    if (to_refusing) free(sec);
+    else if (c->was_refusing) CLS(CL_AFTER_REFUSING);
 }
 
 static int cmp_rec(const void *a, const void *b)
@@ -184,6 +191,8 @@ static int run(const uint8_t *tape, size_t len, struct vp_report *rep, unsigned 
 
     c16_sink_init(&c->sink[0], 0, hold, &c->seq);
     c16_sink_init(&c->sink[1], 1, hold, &c->seq);
+    c->rejecting = ((b0 * 167u) >> 3) % 4 == 2;
+    c->sink[1].reject_flow_def = c->rejecting;
     struct uref *flow_def = uref_block_flow_alloc_def(c->fm.uref_mgr, "mpegtspsi.");
     c->join = flow_def ? upipe_flow_alloc(upipe_ts_psi_join_mgr_alloc(), c16_probe_init(&c->probe, "join", 0, rep, c->render), flow_def) : NULL;
     if (flow_def) uref_free(flow_def);
@@ -200,6 +209,7 @@ static int run(const uint8_t *tape, size_t len, struct vp_report *rep, unsigned 
         case 14: if (c->nlive > 1) { remove_input(c); break; } add_input(c); break;
         case 15:
             if (op & 0x10) {
+                if (c->rejecting && c->cursink == 1 && c->refused_some) c->was_refusing = true;
                 c->cursink ^= 1;
                 R("  set_output(sink %d)\n", c->cursink);
                 if (!ubase_check(upipe_set_output(c->join, &c->sink[c->cursink].upipe))) FAIL("C16/join/set-output", "set_output refused");
@@ -284,6 +294,7 @@ out:
     for (int k = 0; k < 2; k++) {
         /* the joiner has one output, replaced by set_output: each newly connected sink gets the definition before data */
         if (c->sink[k].data_before_flow_def) FAIL("C04/flowdef/missing", "sink %d received a buffer before any flow definition", k);
+        if (c->sink[k].data_while_rejected) FAIL("C16/join/delivered-to-refusing-output", "sink %d received a section although it had refused the flow definition", k);
     }
     c16_sink_clean(&c->sink[0]);
     c16_sink_clean(&c->sink[1]);
